@@ -18,13 +18,19 @@ import Reduino.Lang.Tr
       (a first assignment by tuple takes other paths of the transpiler: the all-new-at-global-scope form and the local
       declarations of finding F17 are outside); the targets are assigned names, so they are never `for` variables; the names
       `__tmp_assign_<n>` are reserved: a program with a tuple assignment has no assigned name and no declared name of that shape;
-    * `mon.write` of int-typed expressions (a bool prints as True/False under CPython and 1/0 on the device).
+    * `mon.write` of int- or string-typed expressions (a bool prints as True/False under CPython and 1/0 on the device);
+    * strings (W13): literals of printable ASCII; a string-typed expression is a literal, a string-typed name, a conditional
+      expression with two string branches, `str(e)` of an int- or string-typed `e` (not bool: "True" vs "1"), or `a + b` on two
+      strings where the emitted sum has a `String` object on one side (`Expr.binTyOk`; `s += e` likewise); strings are kept out of conditions (`if`, `while`, `not`, the test of a conditional
+      expression: Python tests "non-empty", the `String` class something else), out of counts (`range`, `sleep`: `Expr.okCond`),
+      out of every other arithmetic and out of comparisons; a name keeps one type, so a string-typed name is only ever assigned strings.
 -/
 namespace Reduino.Lang
 
 def Expr.vars : Expr → List String
   | .int _ => []
   | .bool _ => []
+  | .str _ => []
   | .var x => [x]
   | .bin _ a b => a.vars ++ b.vars
   | .neg a => a.vars
@@ -35,6 +41,7 @@ def Expr.vars : Expr → List String
   | .ite c a b => c.vars ++ a.vars ++ b.vars
   | .abs a => a.vars
   | .mm _ a b => a.vars ++ b.vars
+  | .toStr a => a.vars
 
 def Stmt.assigned : Stmt → List String
   | .skip => []
@@ -50,20 +57,47 @@ def Stmt.assigned : Stmt → List String
   | .sleep _ => []
   | .brk => []
 
+/-- the characters a literal of the fragment may contain: printable ASCII (the emitted literal escapes `\` and `"`,
+    `Esc.escape`; what the C++ lexer reads back is C06's `escape_roundtrip`) -/
+def okLitChar (c : Char) : Bool := 32 ≤ c.toNat && c.toNat < 127
+
+/-- the emitted C++ expression has the static type `const char*` (a literal, or a conditional expression choosing between two such):
+    `const char* + const char*` does not compile, while a `String` on either side of `+` does -/
+def Expr.cstr : Expr → Bool
+  | .str _ => true
+  | .ite _ a b => a.cstr && b.cstr
+  | _ => false
+
+def Expr.isLit : Expr → Bool
+  | .str _ => true
+  | _ => false
+
+/-- operand types of a binary operator: two numbers, or `+` on two strings of which the emitted left operand (a literal is wrapped
+    into `String("…")`) or the right one is a `String` object -/
+def Expr.binTyOk (te : C.TyEnv) (op : BinOp) (a b : Expr) : Bool :=
+  (inferTy te a != .string && inferTy te b != .string) ||
+  (op == .add && inferTy te a == .string && inferTy te b == .string && (a.isLit || !a.cstr || !b.cstr))
+
 /-- coarse-type discipline of an expression under `te` -/
 def Expr.wt (te : C.TyEnv) : Expr → Bool
   | .int _ => true
   | .bool _ => true
+  | .str s => s.toList.all okLitChar
   | .var x => (te.lookup x).isSome
-  | .bin _ a b => a.wt te && b.wt te
+  | .bin op a b => a.wt te && b.wt te && Expr.binTyOk te op a b
   | .neg a => a.wt te && inferTy te a == .int
-  | .cmp _ a b => a.wt te && b.wt te
+  | .cmp _ a b => a.wt te && b.wt te && inferTy te a != .string && inferTy te b != .string
   | .and a b => a.wt te && b.wt te && inferTy te a == .bool && inferTy te b == .bool
   | .or a b => a.wt te && b.wt te && inferTy te a == .bool && inferTy te b == .bool
-  | .not a => a.wt te
-  | .ite c a b => c.wt te && a.wt te && b.wt te && inferTy te a == inferTy te b
+  | .not a => a.wt te && inferTy te a != .string
+  | .ite c a b => c.wt te && a.wt te && b.wt te && inferTy te a == inferTy te b && inferTy te c != .string
   | .abs a => a.wt te
   | .mm _ a b => a.wt te && b.wt te && inferTy te a == .int && inferTy te b == .int
+  | .toStr a => a.wt te && inferTy te a != .bool          -- `str(True)` is "True", `String(true)` is "1"
+
+/-- a condition (`if`, `while`) or a count (`range`, `sleep`): well typed and not a string (Python's truth value of a string is
+    "non-empty", the `String` class converts differently; `range("a")` / `sleep("a")` raise) -/
+def Expr.okCond (te : C.TyEnv) (c : Expr) : Bool := c.wt te && inferTy te c != .string
 
 /-- statements below the top level; `te` holds the globals declared so far plus the loop variables in scope;
     `allAssigned` are all names assigned anywhere in the program -/
@@ -71,20 +105,20 @@ def Stmt.okNested (allAssigned : List String) (te : C.TyEnv) : Stmt → Bool
   | .skip => true
   | .seq a b => a.okNested allAssigned te && b.okNested allAssigned te
   | .assign x e => e.wt te && (te.lookup x == some (inferTy te e))
-  | .aug x _ e => e.wt te && (te.lookup x == some .int)
+  | .aug x op e => (Expr.bin op (.var x) e).wt te && (te.lookup x == some (inferTy te (.bin op (.var x) e)))
   | .tuple _ xs es =>
     2 ≤ xs.length && xs.length == es.length && es.all (fun e => e.wt te) &&
     okTargets te xs es &&
     allAssigned.all (fun x => !isTmp x) && te.all (fun d => !isTmp d.1)
   | .ctuple _ _ _ _ => false
-  | .ifs c t e => c.wt te && t.okNested allAssigned te && e.okNested allAssigned te
-  | .whileLoop c b => c.wt te && b.okNested allAssigned te
+  | .ifs c t e => c.okCond te && t.okNested allAssigned te && e.okNested allAssigned te
+  | .whileLoop c b => c.okCond te && b.okNested allAssigned te
   | .forRange i n b =>
-    n.wt te && !(allAssigned.contains i) && (te.lookup i).isNone &&
+    n.okCond te && !(allAssigned.contains i) && (te.lookup i).isNone &&
     n.vars.all (fun v => !(b.assigned.contains v)) &&
     b.okNested allAssigned ((i, .int) :: te)
-  | .write e => e.wt te && inferTy te e == .int
-  | .sleep e => e.wt te
+  | .write e => e.wt te && inferTy te e != .bool
+  | .sleep e => e.okCond te
   | .brk => true
 
 /-- the prologue, statement by statement, threading the declarations exactly as `trTop` does -/
